@@ -77,6 +77,8 @@ pub fn main() {
     run.require_counter("faults_injected");
     let shards = n_shards(&run);
     let run = &run;
+    crate::witness::c03_merged(run);
+    crate::witness::c03_float(run);
     std::thread::scope(|sc| {
         for shard in 0..shards {
             sc.spawn(move || {
